@@ -1,4 +1,5 @@
 import SJ.Proofs.Facts
+import SJ.Proofs.EditHistory
 import SJ.Proofs.Edit
 import SJ.Proofs.EditString
 import SJ.Proofs.Bridge
@@ -82,5 +83,38 @@ theorem C13_setInt_then_read (pj : PJ) (v : LVal) (hok : Ok pj v) (htight : Walk
 
 /-- the located relation means what Layout says: the tape region is exactly the encoding of the erased document -/
 theorem C13_located_sound (pj : PJ) (v : LVal) (h : Ok pj v) : ValAt pj (erase v) v.pos v.fin := ok_valAt pj v h
+
+
+open SJ.EditHistory SJ.WalkLayout in
+/-- **Any sequence of replacements.** `ops` is any list of `SetInt / SetUInt / SetFloat / SetBool / SetNull / SetString`
+    calls, each addressed to a value position and valid *in the document as it is when the call is made* (`ValidSeq`: the
+    node exists, the gate admits its tag; a container nulled earlier takes its inner positions with it). Then every
+    call succeeds and the final tape holds the original document with exactly those replacements applied in order
+    (`absOps`: a fold of node substitutions) — still tight, same `Message`, same tape length, string buffer extended by
+    exactly the bytes of the `SetString` calls. -/
+theorem C13_history (ops : List EOp) (pj : PJ) (v : LVal) (hok : Ok pj v) (ht : Tight v) (hv : ValidSeq pj v ops) :
+    ∃ pj', applyOps pj ops = .ok pj' ∧ Ok pj' (absOps v ops) ∧ Tight (absOps v ops) ∧ pj'.msg = pj.msg ∧
+      pj'.tape.size = pj.tape.size ∧ pj'.strings = pj.strings ++ appendedAll ops := history ops pj v hok ht hv
+
+open SJ.EditHistory SJ.WalkLayout in
+/-- … and the traversal API then reads back exactly that document. -/
+theorem C13_history_readback (ops : List EOp) (pj : PJ) (v : LVal) (hok : Ok pj v) (ht : Tight v) (hv : ValidSeq pj v ops) :
+    ∃ pj', applyOps pj ops = .ok pj' ∧
+      owalkValue pj' (iterOn pj' v.pos) (fuelOf pj') = .ok (toOVal (absOps v ops)) :=
+  history_readback_iterOn ops pj v hok ht hv
+
+open SJ.EditHistory SJ.WalkLayout in
+/-- **A disallowed call, at any point of a history, returns an error and changes nothing**: the tape reached so far
+    still holds the document reached so far. A call is refused exactly when its gate refuses the tag. -/
+theorem C13_history_refused (ops : List EOp) (pj : PJ) (v : LVal) (hok : Ok pj v) (ht : Tight v)
+    (hv : ValidSeq pj v ops) (op : EOp) (r : List EOp)
+    (hg : ∀ pjm, applyOps pj ops = .ok pjm → gateOf op (tagAt pjm op.pos) = false) :
+    ∃ pjm, applyOps pj ops = .ok pjm ∧ applyOp pjm op = .error .generic ∧ (∀ pj', applyOp pjm op ≠ .ok pj') ∧
+      Ok pjm (absOps v ops) ∧ Tight (absOps v ops) ∧ pjm.msg = pj.msg ∧ pjm.tape.size = pj.tape.size ∧
+      applyOps pj (ops ++ op :: r) = .error .generic := history_error_changes_nothing ops pj v hok ht hv op r hg
+
+open SJ.EditHistory in
+theorem C13_refused_iff_gate (pj : PJ) (op : EOp) (e : Err) :
+    applyOp pj op = .error e ↔ gateOf op (tagAt pj op.pos) = false ∧ e = .generic := applyOp_error_iff pj op e
 
 end SJ.Properties.C13
